@@ -30,6 +30,12 @@ def cases(draw, tier):
     c = draw(gen.kernel_cases(max_leaves=4 if tier == "quick" else 5, value_class="exact",
                               sparse_output_bias=draw(st.booleans())))
     c["capacity"] = draw(st.sampled_from([1, 2, None]))
+    if len(c["target"][1]) >= 2 and draw(st.integers(0, 2)) == 0:
+        # compressed level(s) followed by dense ones: compute then writes whole dense blocks at a position that may
+        # not be committed (the 'scratch' block after the last stored position)
+        modes, ordering = C.fmt_parts(c["formats"]["o"])
+        k = draw(st.integers(1, len(modes) - 1))
+        c["formats"] = dict(c["formats"], o=C.fmt_text(("s",) * k + ("d",) * (len(modes) - k), ordering))
     n = draw(st.integers(1, 3))
     revs = []
     for _ in range(n):
@@ -81,5 +87,5 @@ def replay(payload):
 
 
 def run(chk):
-    n = 400 if chk.tier == "quick" else 12000
+    n = 800 if chk.tier == "quick" else 16000
     chk.absorb(run_stream(__name__, "main", chk.tier, chk.seed, n), shrink=shrink_case)
